@@ -1228,6 +1228,10 @@ func (s *State) evalArrayInfixExpression(operator token.Type, left, right object
 		}
 		return object.NewArray(result)
 	case token.PLUS: // concat / append
+		if len(leftVal) > object.MaxSmallArray {
+			// A large array shares its backing slice with every copy of the value: never append into its spare capacity.
+			leftVal = leftVal[:len(leftVal):len(leftVal)]
+		}
 		if right.Type() != object.ARRAY {
 			return object.NewArray(append(leftVal, object.Value(right)))
 		}
